@@ -1,7 +1,7 @@
 #!/usr/bin/env python3
 """C20 literal grid.  Generates
 
-  harness/src/toy/gen_literals.rs   compile-time constants (MontFp!, BigInt!, Fp::new,
+  harness/src/gen_literals_c20.rs   compile-time constants (MontFp!, BigInt!, Fp::new,
                                     Fp::from_sign_and_limbs, BigInt::new/one/zero,
                                     to_sign_and_limbs!) next to the value python assigns to
                                     the literal text, and the attribute strings of every
@@ -317,7 +317,7 @@ def main():
     o.w("//! C20: compile-time literal grid.  Every constant sits next to the value that python's")
     o.w("//! int() assigns to the literal text (reduced mod p for field constants).")
     o.w("#![allow(non_camel_case_types, non_upper_case_globals, non_snake_case, dead_code, unused_imports, clippy::all)]")
-    o.w("use crate::toy::gen_fields::*;")
+    o.w("use algebra_mc::toy::gen_fields::*;")
     o.w("use ark_ff::{BigInt, Fp, MontFp};")
     o.w("")
     o.w("/// `to_sign_and_limbs!` only parses its argument when it arrives as a macro_rules `$e:expr`")
@@ -402,8 +402,8 @@ def main():
     o.w("macro_rules! literal_field_tables {")
     o.w("    ($m:ident $(, $a:expr)*) => {")
     for (mod, ty, tyname, p, n, grid) in mods:
-        path = ty if ty.startswith("ark_") else f"$crate::toy::gen_fields::{ty}"
-        o.w(f'        $m!({path}, "{tyname}", $crate::toy::gen_literals::{mod} $(, $a)*);')
+        path = ty if ty.startswith("ark_") else f"algebra_mc::toy::gen_fields::{ty}"
+        o.w(f'        $m!({path}, "{tyname}", crate::gen_literals::{mod} $(, $a)*);')
     o.w("    };")
     o.w("}")
     o.w("/// calls `$m!(N, module)` for every big-integer table")
@@ -411,7 +411,7 @@ def main():
     o.w("macro_rules! literal_bigint_tables {")
     o.w("    ($m:ident $(, $a:expr)*) => {")
     for n in (1, 2, 4, 13):
-        o.w(f"        $m!({n}, $crate::toy::gen_literals::b_n{n} $(, $a)*);")
+        o.w(f"        $m!({n}, crate::gen_literals::b_n{n} $(, $a)*);")
     o.w("    };")
     o.w("}")
     o.w("")
@@ -442,7 +442,7 @@ def main():
     o.w("/// shipped prime fields whose derive site could not be located (checked against MODULUS-derived quantities only)")
     o.w("pub const SHIPPED_UNRESOLVED: &[&str] = &[" + ", ".join(rs_str(x) for x in unresolved) + "];")
 
-    files = {os.path.join(VERIF, "harness", "src", "toy", "gen_literals.rs"): o.text()}
+    files = {os.path.join(VERIF, "harness", "src", "gen_literals_c20.rs"): o.text()}
     files.update(neg_package(toy))
     stale = []
     for path, txt in sorted(files.items()):
